@@ -146,7 +146,8 @@ type worker struct {
 	peer    int
 	idIdx   int
 	gid     int64  // goroutine running ExecuteTask
-	state   string // R running, L parked in the loader, H parked in a block hook, B waiting for memory, M waiting for the (parked) manager, D done
+	holdStart bool // park before StartTask (op `popq`)
+	state   string // P popped, StartTask not yet sent; R running, L parked in the loader, H parked in a block hook, B waiting for memory, M waiting for the (parked) manager, D done
 	release chan bool
 }
 
@@ -496,7 +497,25 @@ func (h handlerWrap) AllocateAndBuildMessage(p peer.ID, size uint64, fn func(*me
 type mgrWrap struct{ e *engine }
 
 func (m mgrWrap) StartTask(task *peertask.Task, p peer.ID, ch chan<- queryexecutor.ResponseTask) {
-	m.e.rm.StartTask(task, p, ch)
+	e := m.e
+	// op `popq`: the worker has popped the task but is held before it tells the manager (StartTask), so
+	// that the script can have other messages handled in between
+	id := e.idIndex(task.Topic.(graphsync.RequestID))
+	e.mu.Lock()
+	w := e.workerFor(id)
+	hold := w != nil && w.holdStart
+	if hold {
+		w.holdStart = false
+	}
+	e.mu.Unlock()
+	if hold && !e.free {
+		e.notes <- note{kind: "prestart", wk: w}
+		select {
+		case <-w.release:
+		case <-e.ctx.Done():
+		}
+	}
+	e.rm.StartTask(task, p, ch)
 }
 func (m mgrWrap) GetUpdates(id graphsync.RequestID, ch chan<- []gsmsg.GraphSyncRequest) {
 	m.e.rm.GetUpdates(id, ch)
